@@ -12,7 +12,6 @@ use elf::endian::{AnyEndian, BigEndian, EndianParse, LittleEndian, NativeEndian}
 use elf::file::parse_ident;
 use elf::parse::ParseError;
 use elf::{ElfBytes, ElfStream};
-use std::io::Cursor;
 
 pub const DEF: PropDef = PropDef { id: "C10", strata, run, setup, canaries: &["panic"] };
 
@@ -65,7 +64,7 @@ fn run_entry<E: EndianParse>(entry: usize, file: &[u8]) -> Outcome {
             Ok(_) => Outcome::Ok,
             Err(e) => Outcome::Err(e),
         },
-        1 => match ElfStream::<E, _>::open_stream(Cursor::new(file)) {
+        1 => match ElfStream::<E, _>::open_stream(super::util::cursor_anywhere(file)) {
             Ok(_) => Outcome::Ok,
             Err(e) => Outcome::Err(e),
         },
@@ -191,7 +190,7 @@ fn equivalence<F: EndianParse, O: EndianParse>(ctx: &mut Ctx, data: &[u8], what:
             return;
         }
     }
-    let sother = ElfStream::<O, _>::open_stream(Cursor::new(data));
+    let sother = ElfStream::<O, _>::open_stream(super::util::cursor_anywhere(data));
     if !matches!(&sother, Err(ParseError::UnsupportedElfEndianness(b)) if *b == data[5]) {
         ctx.violation("equiv:stream:other-order-not-refused", format!("{what}: open_stream with the spec for the other byte order did not return UnsupportedElfEndianness({})", data[5]));
         return;
@@ -210,8 +209,8 @@ fn equivalence<F: EndianParse, O: EndianParse>(ctx: &mut Ctx, data: &[u8], what:
     pool.extend([crate::observe::Query::Ehdr, crate::observe::Query::Shdrs, crate::observe::Query::Phdrs]);
     ctx.nontrivial_bytes(data);
     ctx.sample(|| format!("{what}: {} queries under AnyEndian vs {fixed_name}", pool.len()));
-    let mut sany = ElfStream::<AnyEndian, _>::open_stream(Cursor::new(data)).ok();
-    let mut sfixed = ElfStream::<F, _>::open_stream(Cursor::new(data)).ok();
+    let mut sany = ElfStream::<AnyEndian, _>::open_stream(super::util::cursor_anywhere(data)).ok();
+    let mut sfixed = ElfStream::<F, _>::open_stream(super::util::cursor_anywhere(data)).ok();
     for q in &pool {
         ctx.eval();
         let a = obs_slice(&any, q);
